@@ -77,6 +77,13 @@ def buildInputs (c : SemCase) : List InputBinding :=
       | none => none
     | _ => none)
 
+/-- withdraw rejected nodes from the binding until every remaining bound node passes -/
+def withdraw (vc : Circuit) (nodes : Array CNode) : Nat → Array (Option Bind) → Array (Option Bind)
+  | 0, b => b
+  | f + 1, b =>
+    let bad := (List.range nodes.size).filter (fun n => !checkNode vc nodes (fun m => b.getD m none) n)
+    if bad.isEmpty then b else withdraw vc nodes f (bad.foldl (fun b n => b.setIfInBounds n none) b)
+
 def runSem (j : Json) : Json :=
   let id := jgetD j "id"
   let prog := decodeProgram (jgetD j "ast")
@@ -271,9 +278,7 @@ def runSem (j : Json) : Json :=
       -- them, until every remaining bound node passes: the theorems then speak about the results that are still bound
       let bindArr0 := bindArr
       let failing := (List.range core.nodes.size).filter (fun n => !checkNode vc core.nodes (fun m => bindArr0.getD m none) n)
-      let bindArr := (List.range (core.nodes.size + 1)).foldl (fun (b : Array (Option Bind)) _ =>
-        let bad := (List.range core.nodes.size).filter (fun n => !checkNode vc core.nodes (fun m => b.getD m none) n)
-        bad.foldl (fun b n => b.setIfInBounds n none) b) bindArr0
+      let bindArr := withdraw vc core.nodes (core.nodes.size + 1) bindArr0
       let bindF : Nat → Option Bind := fun n => bindArr.getD n none
       let rank := computeRank vc
       let ranked := vc.checkRanked rank
